@@ -101,8 +101,10 @@ fn build(tier: Tier) -> Vec<Case> {
         ("subshell-then-exit", "(exit 3)\necho \"after=$?\"\nexit 4"),
         ("exempt-positions", "vfalse | vtrue; echo \"after=$?\"\n! vfalse; echo \"after=$?\"\nif vfalse; then :; fi; echo \"after=$?\"\nvfalse || echo \"after=$?\""),
         ("in-loop", "for i in 1 2; do vfalse; done\necho \"after=$?\""),
+        ("exit-in-condition", "if vtrue; then exit 5; fi\necho not-reached"),
+        ("exit-in-function-in-andor", "fx() { exit 6; }\nfx && echo not-reached\necho not-reached-either"),
     ];
-    const OPTS: &[(&str, &str)] = &[("none", ""), ("errtrace", "set -E\n"), ("errexit", "set -e\n"), ("errexit+errtrace", "set -eE\n")];
+    const OPTS: &[(&str, &str)] = &[("none", ""), ("errtrace", "set -E\n"), ("errexit", "set -e\n"), ("errexit+errtrace", "set -eE\n"), ("pipefail", "set -o pipefail\n"), ("pipefail+errtrace", "set -E -o pipefail\n")];
     let kinds = ["DEBUG", "ERR", "EXIT"];
     // assignment: per kind, 0 = not set, 1.. = body index + 1
     for code in 1..2 * 5 * 5usize {
@@ -280,7 +282,7 @@ pub fn run(tier: Tier, replay: Option<Value>) -> ! {
         }
     }
     rep.rule = format!(
-        "all combinations of {} termination paths x {} nesting contexts x {} trap life-cycles x {} handler kinds (quick: non-plain handlers/life-cycles only in the plain, function and subshell contexts) + every non-empty subset of {{DEBUG, ERR, EXIT}} x every assignment of 4 ERR/EXIT handler bodies (ok, failing command, failing function, failing subshell; DEBUG silent) x 5 programs x 4 option sets (each handler must not re-enter itself, EXIT exactly once) + {} special scripts, on the file and -c front-ends (in-process public entry points) and stdin (real binary); distinct = (front-end, path, context, life-cycle, handler)",
+        "all combinations of {} termination paths x {} nesting contexts x {} trap life-cycles x {} handler kinds (quick: non-plain handlers/life-cycles only in the plain, function and subshell contexts) + every non-empty subset of {{DEBUG, ERR, EXIT}} x every assignment of 4 ERR/EXIT handler bodies (ok, failing command, failing function, failing subshell; DEBUG silent) x 7 programs x 6 option sets (each handler must not re-enter itself, EXIT exactly once) + {} special scripts, on the file and -c front-ends (in-process public entry points) and stdin (real binary); distinct = (front-end, path, context, life-cycle, handler)",
         PATHS.len(),
         CONTEXTS.len(),
         LIFECYCLES.len(),
